@@ -178,7 +178,7 @@ impl Property for P {
             any::<u64>(),
             suffix_strat(),
             any::<bool>(),
-            prop::option::weighted(0.4, any::<bool>()),
+            prop::option::weighted(0.5, (any::<bool>(), any::<bool>())),
         )
             .prop_map(|(out, mode, nam, size, threads, per_thread, lens, noise_seed, suffix, via_logger, cleanup)| {
                 let nam = match nam {
@@ -208,12 +208,21 @@ impl Property for P {
                         // a cleanup strategy whose limit is never reached: the cleanup (and, if
                         // chosen, its background thread) runs with every rotation, concurrently
                         // with the logging threads, but must not remove anything
-                        rot: Some(Rot { crit: Crit::Size(size), nam, cln: if cleanup.is_some() { Cln::Keep(100_000) } else { Cln::Never } }),
+                        rot: Some(Rot {
+                            crit: Crit::Size(size),
+                            nam,
+                            cln: match cleanup {
+                                None => Cln::Never,
+                                Some((_, false)) => Cln::Keep(100_000),
+                                // every rotated file is compressed at once, none is removed
+                                Some((_, true)) => Cln::KeepGz(100_000),
+                            },
+                        }),
                         mode,
                         crlf: false,
                         utc: false,
                         symlink: false,
-                        bg_cleanup: cleanup == Some(true),
+                        bg_cleanup: cleanup.is_some_and(|(bg, _)| bg),
                         via_logger,
                     },
                     threads,
@@ -235,6 +244,9 @@ impl Property for P {
                 out.class("out:file");
                 if case.cfg.rot.as_ref().is_some_and(|r| r.cln != Cln::Never) {
                     out.class(if case.cfg.bg_cleanup { "cleanup-thread-active" } else { "cleanup-in-logging-thread" });
+                    if matches!(case.cfg.rot.as_ref().map(|r| r.cln), Some(Cln::KeepGz(_))) {
+                        out.class("rotated-files-compressed");
+                    }
                 }
                 out.class(case.cfg.nam().map_or("nam:none", |n| n.label()));
                 let dir = sc.sub("logs");
